@@ -15,7 +15,7 @@ Variable flavour : sdk.
 Variable ops : list (str * op).
 Variables (cn tn : str) (c : client) (t : table).
 
-Hypothesis Hkeys : run_env EK (UK lu) lm lu flavour [] ops.
+Hypothesis Hkeys : run_env (UK lu) lm lu flavour [] ops.
 Hypothesis Hc : lookup cn (fst (run lm lu flavour [] ops)) = Some c.
 Hypothesis Ht : lookup tn (c_tables c) = Some t.
 
@@ -31,7 +31,6 @@ Proof.
   now apply (pagination_complete_base lm (ctx_of c) t q ev).
 Qed.
 
-Hypothesis Hdefs : run_env EX UAny lm lu flavour [] ops.
 
 Theorem pagination_reachable_index q ev n ix :
   q_index q = Some n -> lookup n (t_indexes t) = Some ix -> q_cond q = None ->
@@ -42,7 +41,7 @@ Theorem pagination_reachable_index q ev n ix :
 Proof.
   intros Hq Hl Hcd Hev L HL.
   destruct (KInv_reachable lm lu flavour ops cn tn c t Hkeys Hc Ht) as [HT [HK Hs]].
-  destruct (XInv_reachable lm lu flavour ops cn tn c t Hdefs Hc Ht) as [_ HX].
+  destruct (XInv_reachable lm lu flavour ops cn tn c t Hc Ht) as [_ HX].
   apply (index_pagination_equals_unpaginated lm (ctx_of c) t q ev n ix); auto.
   apply (HX n). now apply lookup_In.
 Qed.
